@@ -45,7 +45,8 @@ def FileSt.flush (f : FileSt) : FileSt := ⟨execOp f.disk .flush⟩
 
 /-- `read_exact` fails with an error past the end of the file. -/
 def FileSt.read (f : FileSt) (pos n : Nat) : BOut Bytes :=
-  if pos + n ≤ f.disk.data.length then .ok (readAt f.disk.data pos n) else .err
+  if n = 0 then .ok []
+  else if pos + n ≤ f.disk.data.length then .ok (readAt f.disk.data pos n) else .err
 
 /-- `FileStorageMemoryMapped`: both, memory first; reads from memory, `len` from the file. -/
 structure MapSt where
